@@ -26,6 +26,10 @@ def c17(k, ctx):
                 "steps that changed the matrix or were a no-op on purpose")
     # design level: the two-list implementation refines the set of positions
     ctx.tlc_mc("MC_Sparse", "MC_Sparse.cfg" if not ctx.thorough else "MC_Sparse_thorough.cfg")
+    if ctx.thorough:
+        # extra evidence only: Apalache inductive invariant (TypeOK /\ NoDup /\ Mirror /\ Refines) with symbolic dimensions and
+        # histories of unbounded length, plus a flawed twin that must be refuted (never changes the exit status)
+        ctx.extra["apalache"] = k.apalache_inductive(ctx, "SparseInd.tla", "SparseIndNeg.tla")
     # spec -> impl
     cases, n = ctx.tlc_cases("MC_SparseSim", "MC_SparseSim.cfg",
                              simulate=(6000 if ctx.thorough else 300, 33))
@@ -367,15 +371,7 @@ def c13(k, ctx):
     ctx.tlc_mc("MC_BerEngine", "MC_BerEngine_neg4.cfg", expect_violation=True, coverage=False)  # ... which violates Termination (liveness)
     if ctx.thorough:
         # extra evidence only: Apalache inductive invariant for the unbounded statistics rule (never changes the exit status)
-        ap = os.path.join(k.SPEC, "apalache")
-        res = {}
-        for label, args in (("init", ["--inv=IndInv", "--length=0", "BerStatsInd.tla"]),
-                            ("step", ["--init=IndInit", "--inv=IndInv", "--length=1", "BerStatsInd.tla"]),
-                            ("neg", ["--init=IndInit", "--inv=IndInv", "--length=1", "BerStatsIndNeg.tla"])):
-            rc, out, dt = k.run(["timeout", "600", "apalache-mc", "check", "--cinit=ConstInit", f"--out-dir={ctx.work}/apalache"] + args, 700, cwd=ap)
-            res[label] = {"exit_ok": "EXITCODE: OK" in out, "wall_s": round(dt, 1)}
-        res["inductive"] = res["init"]["exit_ok"] and res["step"]["exit_ok"] and not res["neg"]["exit_ok"]
-        ctx.extra["apalache"] = res
+        ctx.extra["apalache"] = k.apalache_inductive(ctx, "BerStatsInd.tla", "BerStatsIndNeg.tla")
     ctx.vh("gen", "i2s", timeout=3000)
     recs, rej = ctx.validate_search("Trace_C13")
     ctx.require_events("BerRun")
